@@ -55,7 +55,7 @@ def gen_case(rng, ctx, kind=None, n_events=None):
             a = int(rng.integers(0, 2))
             events.append(["merge", a, 1 - a])
         elif r < 0.13:
-            events.append(["copy", int(rng.integers(0, 2)), pick(rng, ["deepcopy", "pickle", "copy"])])
+            events.append(["copy", int(rng.integers(0, 2)), pick(rng, ["deepcopy", "pickle", "copy", "shallow"])])
         elif r < 0.14 and n_self < 2:
             n_self += 1
             events.append(["selfmerge", int(rng.integers(0, 2)), pick(rng, [23, 30, 54, 66])])
